@@ -15,7 +15,7 @@
    Definitions only. *)
 From Coq Require Import String List NArith ZArith Bool.
 From Verif Require Import Model.Types Model.Admission.
-From Verif Require Model.Throttle.
+From Verif Require Model.Throttle Model.Proxy.
 Import ListNotations.
 Open Scope string_scope.
 Open Scope list_scope.
@@ -33,6 +33,7 @@ Inductive gexpr :=
 | EInt (n : Z) | EStr (s : string) | ENil | EBool (b : bool)
 | EId (e : gexpr)                                     (* &e, *e, e[:] : no effect on the symbolic value *)
 | ELit (ty : string) (fs : list (string * gexpr))     (* T{f: e, ...} *)
+| EIndex (e i : gexpr)                                (* e[i] *)
 | EUnknown (what : string).
 
 Inductive gstmt :=
@@ -40,7 +41,8 @@ Inductive gstmt :=
 | SOpAssign (x : string) (o : binop) (rhs : gexpr)    (* x *= e ... *)
 | SIf (init : list gstmt) (c : gexpr) (thn els : list gstmt)
 | SReturn (es : list gexpr)
-| SSkip (what : string)                               (* logging call, var declaration *)
+| SSkip (what : string)                               (* logging call *)
+| SVarZero (vars : list (string * string))            (* var x T: the zero value of T *)
 | SUnknown (what : string).
 
 Record gfun := { f_recv : option string; f_params : list string; f_body : list gstmt }.
@@ -65,6 +67,16 @@ Inductive gval :=
 | VMgr (m : mgr) | VGenesis (g : genesis) | VPBase (p : pbase) | VPBStore (p : pbase) | VPBLast (p : pbase)
 | VCfg (m : mgr) (path : list string)
 | VTuple (l : list gval)
+| VStr (s : string)
+| VRec (fields : list (string * gval))          (* a struct literal, field by field *)
+(* the DA helpers of types/da.go over the vocabulary of Model/Proxy.v *)
+| VDASubmit (r : Proxy.sresult)                 (* a DA layer that answers SubmitWithOptions with r *)
+| VDAGetIDs (g : Proxy.gresult)                 (* a DA layer that answers GetIDs with g *)
+| VDAErr (e : Proxy.err) | VSent (s : Proxy.sentinel) (text : string) | VCtxCanceled | VStatus (st : Proxy.status)
+| VIds (ids : list N) (h : N)                   (* ids minted at height h *)
+| VId (h : N)
+| VIdsResult (ids : list N) (ts : N)            (* *GetIDsResult, non-nil *)
+| VBlobs (n : nat)                              (* data [][]byte as far as the helper reads it: its length *)
 | VUnit.
 
 Definition env := list (string * gval).
@@ -159,6 +171,10 @@ Definition sel (v : gval) (f : string) : res gval :=
   | VPBase p =>
       if f =? "store" then RRet (VPBStore p) else
       if f =? "lastHeight" then RRet (VPBLast p) else RFail ("pendingBase." ++ f)
+  | VRec fields => match lookup fields f with Some v => RRet v | None => RFail ("field " ++ f) end
+  | VIdsResult ids ts =>
+      if f =? "IDs" then RRet (VIds ids 0) else
+      if f =? "Timestamp" then RRet (VN ts) else RFail ("GetIDsResult." ++ f)
   | _ => RFail ("select ." ++ f)
   end.
 
@@ -196,6 +212,23 @@ Definition meth (v : gval) (m : string) (args : list gval) : res gval :=
         end
       else RFail ("store." ++ m)
   | VPBLast p, [] => if m =? "Load" then RRet (VN (pb_last p)) else RFail ("lastHeight." ++ m)
+  | VDASubmit r, _ =>
+      if m =? "SubmitWithOptions" then
+        match r with
+        | Proxy.SRes ids h => RRet (VTuple [VIds ids h; VNil])
+        | Proxy.SFail e => RRet (VTuple [VIds [] 0; VDAErr e])       (* ids together with an error: outside the model *)
+        end
+      else RFail ("DA." ++ m)
+  | VDAGetIDs g, _ =>
+      if m =? "GetIDs" then
+        match g with
+        | Proxy.GNil => RRet (VTuple [VNil; VNil])
+        | Proxy.GRes ids ts => RRet (VTuple [VIdsResult ids ts; VNil])
+        | Proxy.GErr e => RRet (VTuple [VNil; VDAErr e])
+        end
+      else RFail ("DA." ++ m)
+  | VDAErr e, [] => if m =? "Error" then RRet (VStr (Proxy.e_msg e)) else RFail ("error." ++ m)
+  | VSent _ t, [] => if m =? "Error" then RRet (VStr t) else RFail ("error." ++ m)
   | _, _ => RFail ("method " ++ m)
   end.
 
@@ -205,6 +238,8 @@ Definition builtin (globals : env) (f : string) (args : list gval) : res gval :=
     match args with
     | [VAddr a] => RRet (VN (addr_len a))
     | [VSig s] => RRet (VN (sig_len s))
+    | [VIds ids _] => RRet (VN (N.of_nat (length ids)))
+    | [VBlobs n] => RRet (VN (N.of_nat n))
     | _ => RFail "len"
     end
   else if f =? "bytes.Equal" then
@@ -226,6 +261,24 @@ Definition builtin (globals : env) (f : string) (args : list gval) : res gval :=
     end
   else if (f =? "fmt.Errorf") || (f =? "errors.New") then RRet (VErr true)
   else if f =? "context.Background" then RRet VUnit
+  else if f =? "fmt.Sprintf" then RRet (VStr "")
+  else if f =? "uint64" then match args with [v] => RRet v | _ => RFail "uint64" end
+  else if f =? "errors.Is" then
+    match args with
+    | [VDAErr e; VSent sn _] => RRet (VBool (Proxy.is_sent e sn))
+    | [VDAErr e; VCtxCanceled] => RRet (VBool (Proxy.e_ctx e))
+    | _ => RFail "errors.Is"
+    end
+  else if f =? "strings.Contains" then
+    match args with
+    | [VStr a; VStr b] => RRet (VBool (Proxy.contains a b))
+    | _ => RFail "strings.Contains"
+    end
+  else if f =? "coreda.SplitID" then
+    match args with
+    | [VId h] => RRet (VTuple [VN h; VUnit; VNil])
+    | _ => RFail "SplitID"
+    end
   else if f =? "time.Since" then
     match args, lookup globals "$now" with
     | [VZ start], Some (VZ now) => RRet (VZ (now - start))
@@ -241,6 +294,8 @@ Definition is_nil (v : gval) : option bool :=
   | VOPub p => Some (match p with None => true | _ => false end)
   | VOSData p => Some (match p with None => true | _ => false end)
   | VTxs l => Some (match l with None => true | _ => false end)
+  | VDAErr _ => Some false
+  | VIdsResult _ _ => Some false
   | _ => None
   end.
 
@@ -268,6 +323,7 @@ Definition arith (o : binop) (a b : gval) : res gval :=
   | OSub, VZ x, VZ y => RRet (VZ (x - y))
   | OMul, VZ x, VZ y => RRet (VZ (x * y))
   | OEq, VBool x, VBool y => RRet (VBool (Bool.eqb x y))
+  | OAdd, VStr x, VStr y => RRet (VStr (x ++ y))
   | OEq, x, y =>
       match is_nil x, is_nil y with
       | Some p, Some true => RRet (VBool p)
@@ -353,7 +409,14 @@ Fixpoint eval (fuel : nat) (fs : list (string * gfun)) (globals en : env) (e : g
     | EBin o a b => bind (ev a) (fun va => bind (ev b) (fun vb => let '(x, y) := coerce va vb in arith o x y))
     | ENot a => bind (ev a) (fun v => match v with VBool b => RRet (VBool (negb b)) | _ => RFail "! on a non-boolean" end)
     | EInt n => RRet (VZ n)
-    | EStr _ => RRet VUnit
+    | EStr t => RRet (VStr t)
+    | EIndex a i =>
+        bind (ev a) (fun va => bind (ev i) (fun vi =>
+          match va, vi with
+          | VIds (_ :: _) h, VZ 0%Z => RRet (VId h)
+          | VIds [] _, _ => RFail "index out of range"
+          | _, _ => RFail "index"
+          end))
     | ENil => RRet VNil
     | EBool b => RRet (VBool b)
     | EId a => ev a
@@ -369,7 +432,10 @@ Fixpoint eval (fuel : nat) (fs : list (string * gfun)) (globals en : env) (e : g
               else RFail "Data literal"
           | _ => RFail "Data literal"
           end
-        else RFail ("literal " ++ ty)
+        else
+          (* any other struct literal: a record of its fields *)
+          bind (seq_res (map (fun fe => bind (ev (snd fe)) (fun v => RRet (fst fe, v))) fields))
+               (fun fvs => RRet (VRec fvs))
     | EUnknown w => RFail ("outside the fragment: " ++ w)
     end
   end
@@ -407,6 +473,9 @@ with exec (fuel : nat) (fs : list (string * gfun)) (globals en : env) (ss : list
             end)
       | SReturn es => seq_res (map (eval fuel' fs globals en) es)
       | SSkip _ => exec fuel' fs globals en rest
+      | SVarZero vars =>
+          exec fuel' fs globals
+               (map (fun v => (fst v, if (snd v =? "uint64") then VN 0 else VNil)) vars ++ en) rest
       | SUnknown w => RFail ("outside the fragment: " ++ w)
       end
     end
@@ -424,6 +493,42 @@ Definition run_fun (fs : list (string * gfun)) (globals : env) (name : string) (
                 end in
       interp (exec 400 fs globals en (f_body fn))
   end.
+
+(* package-level names of core/da as the helpers of types/da.go use them; the sentinel texts come from the table
+   the harness reads from the linked package on every run (Model/Proxy.v) *)
+Definition da_globals (T : Proxy.table) : env :=
+  [("coreda.ErrBlobNotFound", VSent Proxy.SNotFound (Proxy.txt T Proxy.SNotFound));
+   ("coreda.ErrBlobSizeOverLimit", VSent Proxy.STooBig (Proxy.txt T Proxy.STooBig));
+   ("coreda.ErrTxTimedOut", VSent Proxy.STimedOut (Proxy.txt T Proxy.STimedOut));
+   ("coreda.ErrTxAlreadyInMempool", VSent Proxy.SMempool (Proxy.txt T Proxy.SMempool));
+   ("coreda.ErrTxIncorrectAccountSequence", VSent Proxy.SSeq (Proxy.txt T Proxy.SSeq));
+   ("coreda.ErrContextDeadline", VSent Proxy.SDeadline (Proxy.txt T Proxy.SDeadline));
+   ("coreda.ErrHeightFromFuture", VSent Proxy.SFuture (Proxy.txt T Proxy.SFuture));
+   ("coreda.ErrContextCanceled", VSent Proxy.SCanceled (Proxy.txt T Proxy.SCanceled));
+   ("context.Canceled", VCtxCanceled);
+   ("coreda.StatusUnknown", VStatus Proxy.StUnknown); ("coreda.StatusSuccess", VStatus Proxy.StSuccess);
+   ("coreda.StatusNotFound", VStatus Proxy.StNotFound); ("coreda.StatusNotIncludedInBlock", VStatus Proxy.StNotIncluded);
+   ("coreda.StatusAlreadyInMempool", VStatus Proxy.StMempool); ("coreda.StatusTooBig", VStatus Proxy.StTooBig);
+   ("coreda.StatusContextDeadline", VStatus Proxy.StDeadline); ("coreda.StatusError", VStatus Proxy.StError);
+   ("coreda.StatusIncorrectAccountSequence", VStatus Proxy.StSeq); ("coreda.StatusContextCanceled", VStatus Proxy.StCanceled);
+   ("coreda.StatusHeightFromFuture", VStatus Proxy.StFuture);
+   ("placeholder", VUnit)].
+
+(* what the node reads of a ResultSubmit / ResultRetrieve: BaseResult.{Code, IDs, SubmittedCount, Height};
+   a field the literal does not mention has its zero value *)
+Definition rec_field (v : gval) (f : string) : option gval :=
+  match v with VRec fs => match lookup fs "BaseResult" with
+                          | Some (VRec bs) => lookup bs f
+                          | _ => None end
+             | _ => None end.
+Definition res_code (v : gval) : option Proxy.status :=
+  match rec_field v "Code" with Some (VStatus st) => Some st | _ => None end.
+Definition res_ids (v : gval) : list N :=
+  match rec_field v "IDs" with Some (VIds l _) => l | _ => [] end.
+Definition res_count (v : gval) : N :=
+  match rec_field v "SubmittedCount" with Some (VN n) => n | _ => 0%N end.
+Definition res_height (v : gval) : N :=
+  match rec_field v "Height" with Some (VN n) => n | Some (VZ z) => Z.to_N z | _ => 0%N end.
 
 (* the error result of a validation function: nil or an error *)
 Definition errv (ok : bool) : gval := if ok then VNil else VErr true.
